@@ -223,6 +223,9 @@ def impl_builtin(case):
         X, _ = core.fit_for(det, case, np.array(case["X"], dtype=float), reps=2)
         if case.get("warm") is not None and case["n"] % 2 == 0:  # the fitted detector is also used on other data of the same index first
             det.predict(wrap(np.array(case["warm"], dtype=float)[::-1] + 1.0))
+        # ... or on other data held by the very object that is then overwritten in place with the data under test
+        X = core.prior_use(det, dict(case, prior=case.get("prior", [None, None, "same-object"][core._bits(case, 24, 3)])),
+                           np.array(case["X"], dtype=float), X)
         if case.get("via") == "transform_scores":
             opt = [float(v) for v in det.transform_scores(X).values]
             y = det.predict(X)
@@ -232,7 +235,7 @@ def impl_builtin(case):
         cps = [int(v) for v in y["ilocs"]]
         pen = float(det.penalty_)
         # the cost table as the implementation itself evaluates it (fresh scorer)
-        sc = mk().fit(np.asarray(X))
+        sc = mk().fit(np.array(case["X"], dtype=float))
         cuts = np.array([(s, e) for s in range(n) for e in range(s + sc.min_size, n + 1)])
         vals = sc.evaluate(cuts).sum(axis=1)
         tab = {f"{s},{e}": float(v) for (s, e), v in zip(cuts.tolist(), vals)}
